@@ -91,11 +91,16 @@ fn authloc(l: &AuthLocation) -> String {
         AuthLocation::Cookie { key } => format!("(cookie {})", h(key)),
     }
 }
+fn sorted_strs(mut v: Vec<String>) -> Vec<String> {
+    v.sort();
+    v
+}
 pub fn hir_str(x: &HirSpec) -> String {
     format!(
         "(hir (schemas {}) (ops {}) (servers {}) (security {}) (docs {}))",
         x.schemas.iter().map(|(k, r)| format!("({} {})", h(k), record(r))).collect::<Vec<_>>().join(" "),
-        x.operations
+        // sorted: the order of the operation table is not an observation (no property depends on it)
+        sorted_strs(x.operations
             .iter()
             .map(|o| format!(
                 "(op {} {} {} {} ({}) {})",
@@ -106,7 +111,7 @@ pub fn hir_str(x: &HirSpec) -> String {
                 o.parameters.iter().map(|p| format!("(p {} {} {} {})", h(&p.name), loc(&p.location), ty(&p.ty), pb(p.optional))).collect::<Vec<_>>().join(" "),
                 ty(&o.ret)
             ))
-            .collect::<Vec<_>>()
+            .collect::<Vec<_>>())
             .join(" "),
         x.servers.iter().map(|(k, v)| format!("({} {})", h(k), h(v))).collect::<Vec<_>>().join(" "),
         x.security
